@@ -35,7 +35,8 @@ def menus():
         ("auth",): [ABSENT, None, "x", [], {}, 5],
         ("auth", "receipt"): [ABSENT] + HEX_BAD + ["aa bb"],
         ("auth", "receipt_merkle_proof"): [ABSENT, None, "aa", [], [5], [""], ["zz"], ["aa", 5],
-                                           [None], {}, [["aa"]], ["aa", "b"], ["aa bb"], [" "], ["aa", "\t"], ["\u0661\u0662"], ["aa", "b\u0669"]],
+                                           [None], {}, [["aa"]], ["aa", "b"], ["aa bb"], [" "], ["aa", "\t"], ["\u0661\u0662"], ["aa", "b\u0669"],
+                                           {"aabb": 0, "ccdd": 1}, {"aa": "bb"}, "aabb"],
         ("auth", "foo"): ["bar"],
         ("message",): [ABSENT, None, "aa" * 32, [], {}, 5],
         ("message", "tx"): [ABSENT] + HEX_BAD + ["aabb", "01000000"],
@@ -48,9 +49,9 @@ def menus():
         ("message", "hash"): [ABSENT] + HEX_BAD + ["aa" * 31, "aa" * 33, "AA" * 32, "aa" * 32],
         ("message", "foo"): ["bar"],
         ("message:v1",): [ABSENT] + HEX_BAD + ["aa" * 31, "aa" * 33, {"hash": "aa" * 32}, "AB" * 32],
-        ("blocks",): [ABSENT, None, "aa", [], [5], [None], ["zz"], [""], [[]], {}, ["aa", 5], [" "]],
+        ("blocks",): [ABSENT, None, "aa", [], [5], [None], ["zz"], [""], [[]], {}, ["aa", 5], [" "], {"aabb": 0}],
         ("brothers",): [ABSENT, None, "aa", [], "LEN+1", "LEN-1", [5, 5], [[5], []], [[""], []],
-                        [["zz"], []], [None, None], {}, [["aa", None], []], [[" "], []]],
+                        [["zz"], []], [None, None], {}, [["aa", None], []], [[" "], []], {"aabb": []}, [{"aabb": 0}, []]],
         ("udValue",): [ABSENT] + HEX_BAD + ["SHORT", "LONG", "UPPER", "0xPREFIX", "0XPREFIX", "0xSHORT"],
     }
     return M
